@@ -198,6 +198,17 @@ func runC20(r *Run, p *Prog) {
 						}
 					}
 				}
+				// ... or a counted loop from 0: idx = phi(0, idx+1)
+				if ph, ok := idx.(*ssa.Phi); ok && len(ph.Edges) == 2 {
+					init, isK := ph.Edges[0].(*ssa.Const)
+					step, isB := ph.Edges[1].(*ssa.BinOp)
+					if isK && init.Int64() == 0 && isB && step.Op == token.ADD && step.X == ssa.Value(ph) {
+						if k, ok := step.Y.(*ssa.Const); ok && k.Int64() == 1 {
+							asc = true
+							hdr = ph.Block()
+						}
+					}
+				}
 				first := false
 				if hdr != nil && lf.to != nil {
 					again, _ := reachFromBlock(act, lf.to, func(in ssa.Instruction) bool { return in.Block() == hdr }, nil)
@@ -217,6 +228,9 @@ func runC20(r *Run, p *Prog) {
 		flErr := "ext(" + T.T(fileListener) + ",1)"
 		contradicts := func(fs []Fact) bool {
 			if hasFact(fs, "NE", "ext("+pidAtoi+",1)", "nil") || hasFact(fs, "NE", "ext("+pidAtoi+",0)", "call:os.Getpid()") || hasFact(fs, "NE", "ext("+fdsAtoi+",1)", "nil") {
+				return true
+			}
+			if hasFact(fs, "NE", nfdsT, "const:1") {
 				return true
 			}
 			lo, hi := intervalOf(fs, nfdsT)
